@@ -428,9 +428,14 @@ theorem deliver_mem {hung cs : List Nat} {o : Outcome} {x : Nat} {o' : Outcome}
   | cons c cs ih =>
     simp only [deliver] at h
     split at h
-    · simp only [sendServesAllCallers, if_true] at h
-      obtain ⟨h1, h2⟩ := ih h
-      exact ⟨List.mem_cons_of_mem _ h1, h2⟩
+    · -- (both values of `Gen.sendServesAllCallers`)
+      split at h
+      · obtain ⟨h1, h2⟩ := ih h
+        exact ⟨List.mem_cons_of_mem _ h1, h2⟩
+      · simp only [List.mem_map, List.mem_filter] at h
+        obtain ⟨y, ⟨hy, _⟩, hxy⟩ := h
+        simp only [Prod.mk.injEq] at hxy
+        exact ⟨by rw [← hxy.1]; exact List.mem_cons_of_mem _ hy, Or.inr hxy.2.symm⟩
     · rcases List.mem_cons.1 h with h | h
       · simp only [Prod.mk.injEq] at h
         exact ⟨by rw [h.1]; exact List.mem_cons_self .., Or.inl h.2⟩
@@ -447,8 +452,10 @@ theorem deliver_callers (hung cs : List Nat) (o : Outcome) :
     split
     · rename_i hc
       have hc' : c ∈ hung := by simpa using hc
-      simp only [sendServesAllCallers, if_true, ih]
-      simp [hc']
+      split
+      · simp only [ih]
+        simp [hc']
+      · simp [hc', List.map_map, Function.comp_def]
     · rename_i hc
       have hc' : c ∉ hung := by simpa using hc
       simp only [List.map_cons, ih, List.filter_cons]
@@ -1188,39 +1195,6 @@ theorem deliver_closed {hung cs : List Nat} {o : Outcome} {x : Nat}
         · left; exact h
         · right; exact ⟨c', List.mem_cons_of_mem _ h1, h2⟩
 
-/-- every sender is served (`Gen.sendServesAllCallers`): nobody observes a closed channel -/
-theorem deliver_no_closed {hung cs : List Nat} {o : Outcome} {x : Nat}
-    (h : (x, Outcome.closed) ∈ (deliver hung cs o).1) : o = .closed := by
-  induction cs with
-  | nil => simp [deliver] at h
-  | cons c cs ih =>
-    simp only [deliver] at h
-    split at h
-    · simp only [sendServesAllCallers, if_true] at h
-      exact ih h
-    · rcases List.mem_cons.1 h with h | h
-      · simp only [Prod.mk.injEq] at h
-        exact h.2.symm
-      · exact ih h
-
-/-- a live sender receives exactly the outcome sent, whoever else hung up -/
-theorem deliver_live {hung cs : List Nat} {o : Outcome} {x : Nat} (hx : x ∈ cs) (hl : x ∉ hung) :
-    (x, o) ∈ (deliver hung cs o).1 := by
-  induction cs with
-  | nil => simp at hx
-  | cons c cs ih =>
-    simp only [deliver]
-    split
-    · rename_i hc
-      have hc' : c ∈ hung := by simpa using hc
-      simp only [sendServesAllCallers, if_true]
-      rcases List.mem_cons.1 hx with e | hx
-      · subst e; exact absurd hc' hl
-      · exact ih hx
-    · rcases List.mem_cons.1 hx with e | hx
-      · subst e; exact List.mem_cons_self ..
-      · exact List.mem_cons_of_mem _ (ih hx)
-
 theorem sendChecked_ne_closed (cfg : Cfg) (c : Content) : sendChecked cfg c ≠ .closed := by
   unfold sendChecked
   intro h
@@ -1321,53 +1295,6 @@ theorem step_closed {s : State} {op : Op} {x : Nat} (h : (x, Outcome.closed) ∈
       rcases deliver_closed h with hc | hc
       · exact absurd hc (timeoutOutcome_ne_closed _)
       · exact ⟨q, (findQ_some hq).1, (deliver_mem h).1, hc⟩
-  | hangup caller =>
-    simp only [step] at h
-    split at h <;> simp at h
-
-/-- no step lets any caller observe a closed channel (every sender is served, `Gen.sendServesAllCallers`) -/
-theorem step_no_closed {s : State} {op : Op} {x : Nat} : (x, Outcome.closed) ∉ (step s op).2.deliveries := by
-  intro h
-  cases op with
-  | get key caller cfg =>
-    simp only [step] at h
-    split at h
-    · simp at h
-    · split at h <;> simp at h
-  | found qid p c fk =>
-    simp only [step] at h
-    split at h
-    · simp at h
-    · split at h
-      · simp at h
-      split at h
-      · simp only [terminate] at h
-        exact completedOutcome_ne_closed _ _ _ _ (deliver_no_closed h)
-      · simp at h
-  | finished qid =>
-    simp only [step] at h
-    split at h
-    · simp at h
-    · simp only [terminate] at h
-      exact finishedOutcome_ne_closed _ (deliver_no_closed h)
-  | notFound qid =>
-    simp only [step] at h
-    split at h
-    · simp at h
-    · simp only [terminate] at h
-      cases deliver_no_closed h
-  | quorumFailed qid =>
-    simp only [step] at h
-    split at h
-    · simp at h
-    · simp only [terminate] at h
-      cases deliver_no_closed h
-  | timeout qid =>
-    simp only [step] at h
-    split at h
-    · simp at h
-    · simp only [terminate] at h
-      exact timeoutOutcome_ne_closed _ (deliver_no_closed h)
   | hangup caller =>
     simp only [step] at h
     split at h <;> simp at h
